@@ -368,6 +368,7 @@ func finishTmo(tc tmoCase, be *RecBackend, s *smtp.Server, lg *logWriter, client
 	cl.mu.Lock()
 	closed := cl.closed
 	after := append([]byte(nil), cl.buf[mark:]...)
+	received := append([]byte(nil), cl.buf...)
 	cl.mu.Unlock()
 	client.Close()
 	ctx, cancel := context.WithTimeout(context.Background(), tmoClientGuard)
@@ -415,7 +416,7 @@ func finishTmo(tc tmoCase, be *RecBackend, s *smtp.Server, lg *logWriter, client
 		L(A("first"), XS(tc.first)), L(A("rest"), XS(tc.rest)),
 		L(A("obs"), L(A("events"), evs), L(A("deliveries"), dl),
 			L(A("panics"), Num(int64(lg.count("panic serving")))),
-			L(A("step"), A(step)), L(A("closed"), B(closed)), L(A("after"), X(canonAddr(after))),
+			L(A("step"), A(step)), L(A("closed"), B(closed)), L(A("after"), X(canonAddr(after))), L(A("received"), X(canonAddr(received))),
 			L(A("waited"), B(waited)), L(A("served"), B(err == nil))),
 		L(ex...))
 }
